@@ -115,6 +115,7 @@ type Morass struct {
 	chunkSize int
 	pool      chan sorter
 	writable  chan sorter
+	writers   sync.WaitGroup
 
 	filesLock sync.Mutex
 	files     files
@@ -180,7 +181,11 @@ func (m *Morass) Push(e LessInterface) error {
 
 	if len(m.chunk) == m.chunkSize {
 		m.writable <- m.chunk
-		go m.write()
+		m.writers.Add(1)
+		go func() {
+			defer m.writers.Done()
+			m.write()
+		}()
 		m.chunk = <-m.pool
 		if err := m.err(); err != nil {
 			return err
@@ -263,9 +268,12 @@ func (m *Morass) Finalise() error {
 				m.writable <- m.chunk
 				m.chunk = nil
 				m.write()
-				if err := m.err(); err != nil {
-					return err
-				}
+			}
+			// Chunk files being written concurrently must be
+			// complete before they are read back.
+			m.writers.Wait()
+			if err := m.err(); err != nil {
+				return err
 			}
 		}
 		m.pos = 0
